@@ -268,7 +268,7 @@ func isBoundary(d time.Duration) bool {
 // hasParallelBoundary: an operation of this scenario runs in parallel with a timeout handling
 func (s *Scenario) hasParallelBoundary() bool {
 	for i, st := range s.Steps {
-		if st.Op == "sleep" && !st.Settle && isBoundary(st.D) && i+1 < len(s.Steps) {
+		if st.Op == "sleep" && !st.Settle && i+1 < len(s.Steps) {
 			return true
 		}
 	}
@@ -314,6 +314,11 @@ func randomStep(r *vc.Rand, alpha []simkit.Input) Step {
 		st.Op, st.D = "data-burst", time.Duration(vc.Pick(r, []int{3, 10, 70, 130}))
 	case x < 87:
 		st.Op, st.D = "sleep", vc.Pick(r, sleeps)
+		if !parallelBoundary {
+			// outside the C04 runs a sleep is always settled: whatever timer fires at its end is handled before
+			// the next operation starts (10 minutes is a multiple of the 60 s prolongation period)
+			st.Settle = true
+		}
 	case x < 89:
 		st.Op, st.D, st.Settle = "sleep", vc.Pick(r, boundarySleeps), !parallelBoundary
 	case x < 92:
